@@ -179,7 +179,7 @@ def gen_case(rng):
     case["pushes"] = pushes
     if case["origin"] == "git":
         unusual = {}
-        if rng.random() < 0.12:
+        if rng.random() < 0.08:
             files = [a[1] for r in case["history"] for a in r["actions"] if a[0] == "file"]
             if files:
                 r = rng.choice(case["history"])
@@ -389,7 +389,10 @@ class Case:
         self.caches.close()
 
     def fail(self, what, where, detail):
-        self.sim.fail("export", ["export", self.case["origin"], what, where], f"case {self.no}: {detail}")
+        origin = self.case["origin"]
+        if origin == "git" and self.case.get("unusual"):
+            origin = "git+unusual-modes"  # file modes other than 100644/100755/120000: own findings
+        self.sim.fail("export", ["export", origin, what, where], f"case {self.no}: {detail}")
 
     @contextlib.contextmanager
     def guard(self, stage):
@@ -656,6 +659,10 @@ class Case:
         self.sim.probe("revisions_checked", len(revids))
 
     @staticmethod
+    def show1(v):
+        return None if v is None else (oct(v[0]), v[1][:8].decode())
+
+    @staticmethod
     def show(d):
         return {p: (oct(m), s[:8].decode()) for p, (m, s) in sorted(d.items())}
 
@@ -783,6 +790,25 @@ class Case:
         for r in revids:
             if r not in have:
                 self.fail("import", "revision-missing", f"git commit {originals[r]!r} was not imported; have {sorted(have)}")
+        # what was imported must convert back (from scratch) to the original trees
+        ostore0 = origin._git.object_store
+        with bzr.lock_read(), self.guard("from-scratch-conversion"):
+            from breezy.git.mapping import extract_unusual_modes
+
+            for r, rev in zip(history, revids):
+                o = ostore0[shas[r["revid"]]]
+                modes = extract_unusual_modes(bzr.get_revision(rev))
+                _objs, root = gitsim.scratch_objects(bzr.revision_tree(rev), modes, default_mapping.BZR_DUMMY_FILE)
+                if root != o.tree:
+                    want = gitsim.walk_git_tree(ostore0, o.tree)
+                    got, _ = gitsim.independent_objects(bzr.revision_tree(rev), modes)
+                    diff = sorted(p for p in set(want) | set(got) if want.get(p) != got.get(p))[:6]
+                    self.fail(
+                        "original-sha", "scratch:" + self.diff_class(got, want),
+                        f"{r['revid']} = {rev!r}: the imported revision converts from scratch to tree {root!r}, the original commit has {o.tree!r}; "
+                        f"differing paths {diff}: original {[self.show1(want.get(p)) for p in diff]}, converted {[self.show1(got.get(p)) for p in diff]}; "
+                        f"file-modes recorded on this revision: {modes}",
+                    )
         # export again into a second git repository: a plain push where the case says so (these
         # revisions carry no bzr metadata), else lossy as the cache update of the default mapping is
         self.lossy = not case.get("plain_push", False)
